@@ -131,6 +131,13 @@ claim("C07",
       "Cartesian labels: recorded known finding). Floating-point exactness of numRingsToHoldNumCells and Cartesian ring numbering are not decided.",
       COMMON_NOTE, "exact normal forms over Q(sqrt3) + affine map composition + sign-domain abstract interpretation", "DESIGN.md section 3 C07")
 
+claim("C08",
+      "Static analysis with proof-style clauses (exact algebra): the third-core images and the six index rotations extracted as integer matrices M with U.M = R(120n or 60k).U over Q(sqrt3) for both "
+      "orientations, group structure, period 6; every leaf of the Cartesian quarter-core equivalents compared with the exact images of the (possibly half-offset) cell centre under 90-degree "
+      "rotations / axis reflections with the leaf's equality guards substituted; HexBlock.rotate's helpers sharing angle, direction (R.x, pivot by -steps) and step count; symmetry-line guards selecting "
+      "the 0/60/120-degree rays; parity adjustments of isInFirstThird. Counting orbit members in the domain is not decided.",
+      COMMON_NOTE, "exact normal forms over Q(sqrt3) + linear-map extraction + decision-tree substitution", "DESIGN.md section 3 C08")
+
 NA_REASON = {}
 
 
